@@ -52,7 +52,7 @@ theorem conf_tupleHet {w : World} {ts xs} (h : conf w (.tupleHet ts) (.coll .tup
 theorem conf_map {w : World} {mk kt vt kvs} (h : conf w (.map mk kt vt) (.dict kvs) = true) :
     confKV w kt vt kvs = true := by
   simp only [conf, Bool.and_eq_true] at h
-  exact h.1.1
+  exact h.1.1.1
 
 theorem conf_cls {w : World} {c c' fs} (h : conf w (.cls c) (.inst c' fs) = true) :
     c = c' ∧ confF w (w.fields c) fs = true := by
